@@ -7,16 +7,21 @@ import (
 	"strings"
 	"testing"
 	"testing/synctest"
+	"time"
 )
 
 // BubbleResult describes how a synctest bubble ended.
 type BubbleResult struct {
+	Wedged   bool   // real-time watchdog fired: the bubble neither finished nor deadlocked (a goroutine waits for a sync.Mutex whose holder waits for virtual time, DESIGN.md 2.2); inconclusive, never a violation
 	Deadlock bool   // all goroutines of the bubble were durably blocked and the root had not returned
 	Panic    any    // panic value raised by the bubble's root goroutine (nil if none / deadlock)
 	Dump     string // on deadlock: stacks of the goroutines that belong to the bubble
 }
 
-func (b BubbleResult) OK() bool { return !b.Deadlock && b.Panic == nil }
+func (b BubbleResult) OK() bool { return !b.Deadlock && !b.Wedged && b.Panic == nil }
+
+// BubbleWatchdog bounds one bubble in REAL time. It is a backstop only.
+var BubbleWatchdog = 3 * time.Minute
 
 var bubbleTag = regexp.MustCompile(`synctest bubble \d+`)
 
@@ -24,7 +29,19 @@ var bubbleTag = regexp.MustCompile(`synctest bubble \d+`)
 // two ways a bubble can fail: a deadlock (exact: every goroutine durably blocked) and a panic of the
 // root goroutine. Panics of other goroutines still end the process (the child's log is the witness).
 // It may be called from many goroutines concurrently.
-func Bubble(t *testing.T, fn func(t *testing.T)) (res BubbleResult) {
+func Bubble(t *testing.T, fn func(t *testing.T)) BubbleResult {
+	done := make(chan BubbleResult, 1)
+	go func() { done <- bubble(t, fn) }()
+	select {
+	case r := <-done:
+		return r
+	case <-time.After(BubbleWatchdog):
+		// the bubble's goroutines are abandoned (they hold nothing outside the case)
+		return BubbleResult{Wedged: true}
+	}
+}
+
+func bubble(t *testing.T, fn func(t *testing.T)) (res BubbleResult) {
 	tag := ""
 	defer func() {
 		if r := recover(); r != nil {
@@ -56,4 +73,28 @@ func Bubble(t *testing.T, fn func(t *testing.T)) (res BubbleResult) {
 		fn(t)
 	})
 	return
+}
+
+// BubbleFailed classifies a bubble that did not end normally: a wedge is inconclusive, a deadlock
+// (exact: every goroutine durably blocked) and a panic of the root goroutine are violations with the
+// given signature prefix. It returns true if the bubble failed in any of these ways.
+func (r *R) BubbleFailed(b BubbleResult, sigPrefix, caseID, deadlockMsg string, detail map[string]any) bool {
+	if b.OK() {
+		return false
+	}
+	if detail == nil {
+		detail = map[string]any{}
+	}
+	switch {
+	case b.Wedged:
+		r.Inconclusive(caseID, "bubble wedged (real-time watchdog): a goroutine waits for a sync.Mutex whose holder waits for virtual time")
+		r.Count("bubble_wedges", 1)
+	case b.Deadlock:
+		detail["goroutines"] = b.Dump
+		r.Violation(sigPrefix+":blocked-forever", caseID, deadlockMsg, detail)
+	default:
+		detail["stack"] = b.Dump
+		r.Violation(sigPrefix+":panic", caseID, fmt.Sprint(b.Panic), detail)
+	}
+	return true
 }
